@@ -94,8 +94,11 @@ def build_history(seed: int, batch: int, w: int, targets: dict, ref_steps: dict,
     for t in order:
         while rng.random() < 0.30:
             r = rng.random()
-            if r < 0.15:
+            if r < 0.08:
                 ops.append({"op": "gc"})
+            elif r < 0.15:
+                # the host application uses sympy / clingo itself between two calls
+                ops.append({"op": "host", "kind": rng.choice(["sympy", "sympy", "clingo"]), "n": rng.choice([1, 2, 3, 7, 40])})
             elif r < 0.30:
                 ops.append({"op": "detect", "t": rng.choice(tids)})
             elif r < 0.30 + cfg["resalt"] * 4 and salted:
@@ -114,7 +117,7 @@ def build_history(seed: int, batch: int, w: int, targets: dict, ref_steps: dict,
                     ops.append({"op": "opt", "t": ta})
             elif done:
                 ops.append({"op": "opt", "t": rng.choice(done)})
-        kind = rng.choices(["opt", "opt_same_list", "opt_shared"], [0.7, 0.15, 0.15])[0]
+        kind = rng.choices(["opt", "opt_same_list", "opt_shared", "opt_tuple"], [0.64, 0.14, 0.14, 0.08])[0]
         ops.append({"op": kind, "t": t})
         done.append(t)
     return ops
@@ -185,7 +188,7 @@ class Table:
                 fp = ev.get("fp", fp)
                 self.fps.add(fp)
                 continue
-            if op in ("gc", "detect"):
+            if op in ("gc", "detect", "host"):
                 continue
             tid = ev["t"]
             for k, (okey, tkey, pkey, skey) in enumerate(
